@@ -147,6 +147,12 @@ class BoundedAttributes(MutableMapping):
                 raise ValueError(
                     "max_length must be valid int greater or equal to 0"
                 )
+        if max_value_len is not None:
+            if not isinstance(max_value_len, int) or max_value_len < 0:
+                # a negative limit would cut characters off the END of every value (value[:-1])
+                raise ValueError(
+                    "max_value_len must be valid int greater or equal to 0"
+                )
         self.max_length = max_length
         self.dropped = 0
         self.max_value_len = max_value_len
